@@ -271,6 +271,8 @@ class SeqTheory:
     def equals(self, interp, st, a, b):
         if isinstance(b, VSym) and b.theory is self:
             return a.expr == b.expr
+        if isinstance(b, str) or b is None or is_num(b):
+            return False
         raise Unsupported("structure == other")
 
     def kind_is_tuple(self, v):
